@@ -180,7 +180,7 @@ def r2(ctx, tq, sch, wk):
   un = [st for st in ast.walk(wk.node) if isinstance(st, ast.Assign) and isinstance(st.targets[0], ast.Tuple) and isinstance(st.value, (ast.Call, ast.Subscript))]
   peek_un = [st for st in un if is_peek(st.value)]
   pop_un = [st for st in un if isinstance(st.value, ast.Call) and call_name(st.value) in ('heapq.heappop', 'heappop')]
-  okr = len(peek_un) == 1 and len(pop_un) == 1
+  okr = len(set(U(x) for x in peek_un)) == 1 and len(set(U(x) for x in pop_un)) == 1     # (a duplicated branch repeats the same statement)
   names = {}
   if okr:
     pe = [U(e) for e in peek_un[0].targets[0].elts]
